@@ -1182,7 +1182,8 @@ func collectHashFuncs(fset *token.FileSet, all []*fileCtx, rep *Report) {
 				continue
 			}
 			ln := strings.ToLower(fd.Name.Name)
-			if !(strings.Contains(ln, "hash") || strings.Contains(ln, "sum") || strings.Contains(ln, "crc") || strings.Contains(ln, "fnv") || strings.Contains(ln, "digest")) {
+			byName := strings.Contains(ln, "hash") || strings.Contains(ln, "sum") || strings.Contains(ln, "crc") || strings.Contains(ln, "fnv") || strings.Contains(ln, "digest")
+			if !byName && !looksLikeHash(fd) {
 				continue
 			}
 			keyed := false
@@ -1219,4 +1220,37 @@ func collectHashFuncs(fset *token.FileSet, all []*fileCtx, rep *Report) {
 			}
 		}
 	}
+}
+
+// looksLikeHash: a loop that mixes into an accumulator with multiply / xor /
+// shift by a sizeable constant - the shape of FNV, djb2, murmur-style mixers -
+// whatever the function is called.
+func looksLikeHash(fd *ast.FuncDecl) bool {
+	loop, mix := false, false
+	bigConst := func(e ast.Expr) bool {
+		v, ok := intLit(e)
+		return ok && (v >= 16 || v < 0)
+	}
+	ast.Inspect(fd.Body, func(n ast.Node) bool {
+		switch x := n.(type) {
+		case *ast.ForStmt, *ast.RangeStmt:
+			loop = true
+		case *ast.AssignStmt:
+			switch x.Tok {
+			case token.MUL_ASSIGN, token.XOR_ASSIGN, token.SHL_ASSIGN:
+				mix = true
+			}
+		case *ast.BinaryExpr:
+			switch x.Op {
+			case token.MUL:
+				if bigConst(x.X) || bigConst(x.Y) {
+					mix = true
+				}
+			case token.XOR, token.SHL:
+				mix = true
+			}
+		}
+		return true
+	})
+	return loop && mix
 }
